@@ -202,6 +202,10 @@ func (r *rdbdriver) GetLocationByMap(ipnet *net.IPNet, mapID []byte, context Con
 	if len(foundVal) == 0 {
 		return nil, 0, nil // consistent with the return at the end of cdbdriver.go:/GetLocationByMap
 	}
+	if len(foundKey) < 6 || !bytes.Equal(foundKey[:6], fullKey[:6]) {
+		// the closest key belongs to another map (this map has no range points at all): no subnet matches
+		return nil, 0, nil
+	}
 	if len(foundVal) < 4 {
 		err = fmt.Errorf("short value: length %d, value %v, map %v", len(foundVal), foundVal, mapID)
 		return nil, 0, err
